@@ -54,7 +54,8 @@
 From Coq Require Import String List NArith.
 From ApiFu Require Import Base.Sexp Feat.FeaturesModel Feat.FeaturesSpec Feat.FeaturesProofs Feat.FeaturesReach
   Feat.FeaturesDocModel Feat.FeaturesDocProofs Feat.FeaturesFuelProofs.
-From ApiFu Require Vld.Ast Vld.Inspect Vld.TypeInfoModel Vld.ValidatorModel Vld.ProofsCommon Feat.FeaturesVld Feat.FeaturesVldRules.
+From ApiFu Require Vld.Ast Vld.Inspect Vld.TypeInfoModel Vld.ValidatorModel Vld.ProofsCommon Feat.FeaturesVld Feat.FeaturesVldRules
+  Exe.ExecData Exe.ExecModel Feat.FeaturesExe.
 Import ListNotations.
 Open Scope string_scope.
 Open Scope list_scope.
@@ -298,6 +299,26 @@ Theorem C13_C04_spread_rule_refuted_as_modelled :
   = TypeInfoModel.type_info true (FeaturesVld.verase FeaturesVld.VW nil) (cons FeaturesVld.vfa nil) FeaturesVld.VD.
 Proof. exact FeaturesVld.spreads_refuted. Qed.
 
+(** ** the bridge to C01's executor model (coq/Exe, imported read-only; Feat/FeaturesExe.v)
+
+    C01's model has no feature parameter; what the executor does with a request's feature set is
+    handed to it as a schema: [FeaturesExe.view leaf S F], the types, fields, implemented interfaces,
+    union members and root types the request may see ([leaf]: how scalars and enums are presented;
+    arbitrary).  The F-view of S is literally the G-view of the erased schema, so C01's whole request
+    pipeline returns the same on both.  Not established here: that the real executor on (S, F)
+    behaves as C01's model on the F-view — C01's check runs without feature sets; that tie is
+    C13's own correspondence on chains, selection sets and subscriptions. *)
+Theorem C13_C01_view_eq : forall leaf S F G,
+  schema_ok S = true -> subset F G = true ->
+  FeaturesExe.view leaf (erase S F) G = FeaturesExe.view leaf S F.
+Proof. exact FeaturesExe.view_erase. Qed.
+
+Theorem C13_C01_run_request_eq : forall leaf S F G M R opname En fuel W,
+  schema_ok S = true -> subset F G = true ->
+  ExecModel.run_request M (FeaturesExe.view leaf (erase S F) G) R opname En fuel W
+  = ExecModel.run_request M (FeaturesExe.view leaf S F) R opname En fuel W.
+Proof. exact (fun leaf S F G M R opname En fuel W Hok HFG => FeaturesExe.exe_view_run_request leaf S F G Hok HFG M R opname En fuel W). Qed.
+
 (** the reference exists: the reduced schema is accepted by schema.New *)
 Theorem C13_erase_schema_ok : forall S F, schema_ok S = true -> schema_ok (erase S F) = true.
 Proof. exact erase_schema_ok. Qed.
@@ -439,6 +460,8 @@ Print Assumptions C13_C04_fields_rule.
 Print Assumptions C13_C04_values_rule.
 Print Assumptions C13_C04_validate_eq.
 Print Assumptions C13_C04_validate_eq_no_gated_impls.
+Print Assumptions C13_C01_view_eq.
+Print Assumptions C13_C01_run_request_eq.
 Print Assumptions C13_C04_spread_rule_refuted_as_modelled.
 Print Assumptions C13_erase_schema_ok.
 Print Assumptions C13_enabling_is_monotone.
